@@ -50,4 +50,18 @@ theorem api_methods_tied (s t : L4) (ot ou ov : Option L4) (c : Nat) :
 
 example : sOk Hand.Scalar.minusOne ∧ sOk FiatScalar.setOne := ⟨⟨by decide, by decide⟩, ⟨by decide, by decide⟩⟩
 
+/-- **C13 for the methods regenerated from `scalar.go` on this run**: `LessOrEqual` is the integer order of the canonical
+values, `Equal` their equality (nil compares unequal), `IsZero`/`IsOne` test for 0 and 1, `CSelect` keeps the first operand
+for condition 0 and takes the second for every other 64-bit condition word, reporting no error -/
+theorem comparisons_regenerated (r s t : L4) (hs : sOk s) (ht : sOk t) (c : Nat) (hc : c < W) :
+    GenScalarAPI.lessOrEqual s t = (if (sVal s).val ≤ (sVal t).val then 1 else 0) ∧
+    GenScalarAPI.equal s (some t) = (if sVal s = sVal t then 1 else 0) ∧ GenScalarAPI.equal s none = 0 ∧
+    (GenScalarAPI.isZero s = true ↔ sVal s = 0) ∧ (GenScalarAPI.isOne s = true ↔ sVal s = 1) ∧
+    GenScalarAPI.cSelect r c (some s) (some t) = ((if c = 0 then s else t), none) := by
+  obtain ⟨e1, e2, e3, e4, e5⟩ := api_methods_tied s t (some t) (some s) (some t) c
+  obtain ⟨n1, _, _, _, _⟩ := api_methods_tied s t none none none c
+  obtain ⟨_, _, _, _, c5⟩ := api_methods_tied r t none (some s) (some t) c
+  rw [e1, e2, e3, e4, n1, c5, cselect_spec r c hc s t hs.1 ht.1]
+  exact ⟨lessOrEqual_iff s t hs ht, equal_iff s t hs ht, rfl, isZero_iff s hs, isOne_iff s hs, rfl⟩
+
 end C13
